@@ -11,6 +11,15 @@
 //      before the call; gravity makes it non-zero after mj_forward; mj_resetData alone leaves it zero, also when
 //      sleeping is enabled and the reset runs the kinematics).  After a forward the acceleration vector is whatever the
 //      engine computed: printed as "fwd".
+//   ctrlscan <clampoff> <number0> k <K> <kind>*K nu <nu> lim (<limited> <lo bits> <hi bits>)*nu ctrl <bits>*nu
+//        -> <number> <lastinfo> <act_dot bits>*nu
+//      K actuators whose control blocks have different lengths are built through the mjSpec API: `i` a general actuator
+//      with integrator dynamics on a hinge (1 control, 1 activation), `s` an SO(3) orientation servo with integrator
+//      dynamics on a ball joint (3 controls, 3 activations), `z` a dcmotor with input `none` (NO control, no
+//      activation): nu = sum of the block lengths differs from nactuator = K.  Every control feeds an integrator, so
+//      after the real mj_fwdActuation act_dot[k] IS the local control k the stage went on to use (after the clamp, and
+//      zeroed when a bad control was found).  The per-slot limits are written into m->actuator_ctrllimited /
+//      actuator_ctrlrange (nu x 1 / nu x 2), the warning record and d->ctrl into the real mjData.
 #include <math.h>
 #include <setjmp.h>
 #include <stdint.h>
@@ -47,6 +56,53 @@ static mjModel* chain(int n) {
   mjModel* m = mj_compile(s, NULL);
   mj_deleteSpec(s);
   models[n] = m;
+  return m;
+}
+
+// model for a kind string such as "isiz"; cached
+#define MAXK 8
+static struct { char kinds[MAXK + 1]; mjModel* m; } cmodels[256];
+static int ncmodels = 0;
+
+static mjModel* ctrl_model(const char* kinds) {
+  for (int c = 0; c < ncmodels; c++) if (!strcmp(cmodels[c].kinds, kinds)) return cmodels[c].m;
+  mjSpec* s = mj_makeSpec();
+  mjsBody* world = mjs_findBody(s, "world");
+  int K = (int)strlen(kinds);
+  for (int k = 0; k < K; k++) {
+    char jn[32]; snprintf(jn, sizeof jn, "j%d", k);
+    mjsBody* b = mjs_addBody(world, NULL);
+    b->pos[0] = 0.5 * k; b->pos[2] = 1;
+    mjsJoint* j = mjs_addJoint(b, NULL);
+    mjs_setName(j->element, jn);
+    j->type = kinds[k] == 's' ? mjJNT_BALL : mjJNT_HINGE;
+    mjsGeom* g = mjs_addGeom(b, NULL);
+    g->type = mjGEOM_BOX;
+    g->size[0] = 0.1; g->size[1] = 0.05; g->size[2] = 0.02;
+    g->pos[0] = 0.1;
+    g->contype = 0; g->conaffinity = 0;
+    mjsActuator* a = mjs_addActuator(s, NULL);
+    a->trntype = mjTRN_JOINT;
+    mjs_setString(a->target, jn);
+    if (kinds[k] == 'i') {
+      a->dyntype = mjDYN_INTEGRATOR;
+      a->gainprm[0] = 2;
+    } else if (kinds[k] == 's') {
+      a->gaintype = mjGAIN_SO3; a->biastype = mjBIAS_SO3;
+      a->gainprm[0] = 5; a->biasprm[1] = -5; a->biasprm[2] = -0.5;
+      a->dyntype = mjDYN_INTEGRATOR;
+    } else {
+      a->gaintype = mjGAIN_DCMOTOR; a->biastype = mjBIAS_DCMOTOR; a->dyntype = mjDYN_DCMOTOR;
+      a->gainprm[0] = 1; a->gainprm[1] = 0.5;
+      a->dynprm[0] = 0;                       // no electrical time constant: no current state (the default dynprm[0] is 1)
+      a->ctrlspec = mjINPUT_NONE;
+      a->actearly = 1;
+      a->actdim = 0;
+    }
+  }
+  mjModel* m = mj_compile(s, NULL);
+  mj_deleteSpec(s);
+  if (ncmodels < 256) { snprintf(cmodels[ncmodels].kinds, MAXK + 1, "%s", kinds); cmodels[ncmodels].m = m; ncmodels++; }
   return m;
 }
 
@@ -115,6 +171,44 @@ int main(void) {
       target = W == 0 ? d->qpos : W == 1 ? d->qvel : d->qacc;
       if (fwd) printf(" fwd");
       else for (int i = 0; i < n; i++) print_bits(target[i]);
+      printf("\n");
+      mj_deleteData(d);
+    } else if (nt >= 8 && !strcmp(tok[0], "ctrlscan") && !strcmp(tok[3], "k")) {
+      int clampoff = atoi(tok[1]); long number0 = atol(tok[2]); int K = atoi(tok[4]);
+      char kinds[MAXK + 1]; int ok = (clampoff | 1) == 1 && number0 >= 0 && K >= 1 && K <= MAXK && nt >= 5 + K + 3;
+      ok = ok && (!strcmp(tok[1], "0") || !strcmp(tok[1], "1"));
+      int want = 0;
+      for (int k = 0; ok && k < K; k++) {
+        const char* t2 = tok[5 + k];
+        if (strlen(t2) != 1 || !strchr("isz", t2[0])) { ok = 0; break; }
+        kinds[k] = t2[0]; want += t2[0] == 'i' ? 1 : t2[0] == 's' ? 3 : 0;
+      }
+      if (ok) kinds[K] = 0;
+      int p = 5 + K;
+      int nu = (ok && !strcmp(tok[p], "nu")) ? atoi(tok[p + 1]) : -1;
+      ok = ok && nu == want && !strcmp(tok[p + 2], "lim") && nt == p + 3 + 3 * nu + 1 + nu && !strcmp(tok[p + 3 + 3 * nu], "ctrl");
+      double lo[3 * MAXK], hi[3 * MAXK], u[3 * MAXK]; int lim[3 * MAXK];
+      for (int i = 0; ok && i < nu; i++) {
+        const char* l = tok[p + 3 + 3 * i];
+        ok = (!strcmp(l, "0") || !strcmp(l, "1")) && parse_bits(tok[p + 4 + 3 * i], &lo[i]) && parse_bits(tok[p + 5 + 3 * i], &hi[i]) &&
+             parse_bits(tok[p + 4 + 3 * nu + i], &u[i]);
+        lim[i] = l[0] == '1';
+      }
+      mjModel* m = ok ? ctrl_model(kinds) : NULL;
+      if (!m || m->nu != nu || m->na != nu || m->nactuator != K) { printf("bad-op\n"); fflush(stdout); continue; }
+      m->opt.disableflags = clampoff ? mjDSBL_CLAMPCTRL : 0;
+      for (int i = 0; i < nu; i++) {
+        m->actuator_ctrllimited[i] = (mjtBool)lim[i];
+        m->actuator_ctrlrange[2 * i] = lo[i]; m->actuator_ctrlrange[2 * i + 1] = hi[i];
+      }
+      mjData* d = mj_makeData(m);
+      mj_forward(m, d);
+      for (int i = 0; i < nu; i++) d->ctrl[i] = u[i];
+      d->warning[mjWARN_BADCTRL].number = (int)number0;
+      d->warning[mjWARN_BADCTRL].lastinfo = 0;
+      mj_fwdActuation(m, d);
+      printf("%d %d", d->warning[mjWARN_BADCTRL].number, d->warning[mjWARN_BADCTRL].lastinfo);
+      for (int i = 0; i < nu; i++) print_bits(d->act_dot[i]);
       printf("\n");
       mj_deleteData(d);
     } else {
